@@ -3,7 +3,7 @@
 # Confirms a seeded change in a scratch worktree (demo passes without / fails with it, repo tests pass with it),
 # then runs the given checks against the worktree.  Prints a one-line summary per step.
 set -u
-D=$1; shift
+D=$(readlink -f "$1"); shift
 W=${MUT_WT:-/tmp/wt/eval}
 export GOFLAGS=-mod=mod GOPROXY=off GOSUMDB=off GOTOOLCHAIN=local
 cd $W || exit 3
